@@ -263,14 +263,16 @@ fn gen_c15(seed: u64, idx: usize, _tier: Tier) -> C15Scenario {
 }
 
 fn exec_c15(sc_in: &C15Scenario, paired: bool) -> Outcome {
-    // paired runs with a failing child: the child stays alive for 120 ms (24 flush intervals of 5 ms)
-    // before it fails, so that whatever its siblings wrote before that moment has long been flushed
+    // paired runs with a failing child: the child stays alive for 120 ms (24 flush intervals of 5 ms) and then
+    // until no thread of monorail is runnable any more (load-independent), so that whatever its siblings wrote
+    // before it fails has been read and flushed
     let mut sc_owned = sc_in.clone();
     let has_failure = sc_owned.run.script.behav.iter().any(|b| b.code != 0);
     if paired && has_failure && sc_owned.listener.is_some() {
         sc_owned.run.script.flush_ms = Some(5);
         // everybody writes first, then the failing child fails while its siblings are still running
         sc_owned.run.script.strategy = Strategy::OutputThenFailures;
+        sc_owned.run.script.quiesce_before_failures = true;
         for b in sc_owned.run.script.behav.iter_mut() {
             if b.code != 0 {
                 b.exit_pause_ms = 120;
@@ -380,7 +382,7 @@ fn exec_c15(sc_in: &C15Scenario, paired: bool) -> Outcome {
             }
             // stored logs of members that were still running when the failure struck: what they had written
             // 120 ms earlier must be stored in both runs or in neither
-            if has_failure && out.violations.is_empty() {
+            if has_failure && out.violations.is_empty() && !ctx.trace.quiesce_failed && !ctx2.trace.quiesce_failed {
                 if let (Some(w2), Some(snap_a), Some(snap_b)) = (slot2.as_ref(), ctx.trace.written_at_first_failure.as_ref(), ctx2.trace.written_at_first_failure.as_ref()) {
                     let sa = stored_logs(&w, &ctx.trace, &ctx.sc.spec, &ctx.commands).unwrap_or_default();
                     let sb = stored_logs(w2, &ctx2.trace, &ctx2.sc.spec, &ctx2.commands).unwrap_or_default();
